@@ -42,6 +42,12 @@ func (p *Prog) BackSlice(v ssa.Value) map[ssa.Value]bool {
 			for _, st := range p.storesTo(al) {
 				walk(st.Val)
 			}
+			// element / field stores into a local aggregate (varargs arrays, struct literals)
+			for _, in := range allInstrs(al.Parent()) {
+				if st, ok := in.(*ssa.Store); ok && addrBase(st.Addr) == ssa.Value(al) && st.Addr != ssa.Value(al) {
+					walk(st.Val)
+				}
+			}
 		}
 		in, ok := x.(ssa.Instruction)
 		if !ok {
@@ -202,4 +208,18 @@ func (p *Prog) Roots(v ssa.Value, through func(c *ssa.Call) ssa.Value, depth int
 	}
 	walk(v, depth)
 	return roots
+}
+
+// addrBase follows IndexAddr/FieldAddr chains to the underlying pointer.
+func addrBase(v ssa.Value) ssa.Value {
+	for {
+		switch x := v.(type) {
+		case *ssa.IndexAddr:
+			v = x.X
+		case *ssa.FieldAddr:
+			v = x.X
+		default:
+			return v
+		}
+	}
 }
